@@ -74,10 +74,15 @@ def run_exact(fn, rho_shape, args):
     """the real loops on Fractions; rho is an object array of the requested shape"""
     rho = np.empty(rho_shape, dtype=object)
     rho[...] = F(12345, 67)      # poison: every cell must be overwritten
+    # the kernels write rho only: they get copies of the other arguments, and the copies must come back unchanged
+    mine = [np.array(a, copy=True) if isinstance(a, np.ndarray) else a for a in args]
     try:
-        fn(rho, *args)
+        fn(rho, *mine)
     except IndexError:
         return 'err index', None
+    for a, b in zip(args, mine):
+        if isinstance(a, np.ndarray) and not (a.shape == b.shape and all(x == y for x, y in zip(a.reshape(-1), b.reshape(-1)))):
+            return 'err input-modified', None
     return 'ok ' + flat(rho) if rho.size else 'ok ', rho
 
 
@@ -215,6 +220,10 @@ def mpi_case(c):
             out['f'] = simdriver.block_info(f)
             S.density.getPerturbedRho(f, rho)
             out['prho'] = simdriver.block_info(rho)
+            first = np.array(rho.getAllData(), copy=True)
+            S.density.getPerturbedRho(f, rho)              # the time loop calls the same finder at every step
+            S.density.getPerturbedRho(f, rho)
+            out['repeat'] = bool(np.array_equal(first, rho.getAllData()))
             S.density.getRho(f, rho)
             out['rho'] = simdriver.block_info(rho)
             # the finder is a function of its arguments: used again on a distribution that lives on ANOTHER process grid
@@ -326,7 +335,9 @@ def run():
             chk.violation('%s:%s' % (site, c['stratum'].split(':')[1]),
                           '%s shapes rho=%r feq=%r grid=%r nc=%d: the code gives %s, the closed formula %s (model %s)'
                           % (site, c['rho'], c['feq'], c['grid'], c['nc'], rs[:120], exp[:120], m[:120]),
-                          {'kind': 'impl', 'case': c, 'observed': rs, 'expected': exp, 'model': m})
+                          {'kind': 'impl', 'case': c, 'observed': rs, 'expected': exp, 'model': m},
+                          no_input=(rs == 'err input-modified'))      # a kernel that scribbles on its inputs breaks the correspondence; the
+                                                                      # failing input, if any, is a second call that sees the changed table
         elif rs != m:
             chk.cov['disagreements_checked'] += 1
             chk.violation('%s:model-mismatch' % site, '%s %r: code and closed formula agree (%s) but the model says %s: correspondence Density.dn_get_%s no longer checks'
@@ -351,7 +362,9 @@ def run():
         d2 = run_exact(ns['get_rho'], [n, m_, p], (geq, q))[1]
         chk.count(('alg', n, m_, p, nc, t), stratum='algebraic-oracles', sample={'n': n, 'm': m_, 'p': p, 'nc': nc})
         bad = None
-        if not (r12 == a * r1 + b * r2).all():
+        if any(x is None for x in (r1, r2, r12, req, d1, d2)):
+            continue                      # reported by the exact stage above
+        elif not (r12 == a * r1 + b * r2).all():
             bad = 'linearity'
         elif not (req == 0).all():
             bad = 'equilibrium-not-zero'
@@ -501,6 +514,9 @@ def run():
                 ex, sc = exact_density(table[s:s + 2], quad, sub, True)
                 finder_meta.append((npts, s, np.transpose(ex, (0, 2, 1)), np.transpose(out['prho'][s:s + 2, 0:2, 0:2], (0, 2, 1)), np.transpose(sc, (0, 2, 1))))
             else:
+                if not all(x.get('repeat', True) for x in ranks):
+                    chk.violation(key + ':repeated-call', 'npts=%r grid=%r: the second and third getPerturbedRho on the same finder and the same distribution do not '
+                                  'return the density of the first call' % (npts, g), {'kind': 'impl', 'case': ['real', npts, list(g), seed]})
                 bad_reuse = [(rk, x.get('reuse')) for rk, x in enumerate(ranks) if x.get('reuse', True) is not True]
                 if bad_reuse:
                     chk.violation(key + ':finder-reused-on-another-process-grid', 'npts=%r: a DensityFinder first used on grid %r and then on a distribution living on grid %r '
